@@ -410,11 +410,16 @@ pub fn run(ctx: &RunCtx) -> i32 {
     });
     let mut total = total;
     two_hop_lists(&new_runtime(), &mut total);
+    // transport faults (DESIGN 9.2): the body fails in transit instead of yielding frame k
+    total.merge(crate::monitor::c09::transport_fault_leg(ctx, "C02", &["plain-put", "signed-digest-put", "xml/"], ctx.tier.sz(60, 3000)));
     finish(ctx, &meta, &total)
 }
 
 pub fn replay(v: &Value) -> i32 {
     let w = &v["witness"];
+    if w["kind"] == "transport-fault" {
+        return super::replay_verdict("C02", &crate::engine::replay_transport_fault("C02", w));
+    }
     let mut r = Report::new();
     let rt = new_runtime();
     match w["kind"].as_str().unwrap_or("") {
